@@ -143,7 +143,10 @@ class World(object):
             t, p, kk = op[1:].split('.')
             # odd callers own a dictionary with nested dictionaries whose keys are not strings
             # (legal for json.dumps): observers must not rewrite them either
-            d = self.callers.setdefault(int(kk), {'caller': int(kk)} if int(kk) % 2 == 0 else
+            # … and caller 4 owns stale statistics: serialising / observing must not refresh them
+            d = self.callers.setdefault(int(kk), ({'caller': int(kk)} if int(kk) != 4 else
+                                                  {'caller': 4, 'stats': {'changes': 99, 'insertions': 5, 'mine': 'keep'}})
+                                        if int(kk) % 2 == 0 else
                                         {'caller': int(kk), 'line notes': {10: 'x', 2: 'y'}, 'hunks': [{1: 'first'}, {None: 0}]})
             section_at(self.trees[int(t)], p).meta = d
         elif k in 'PQ':
